@@ -21,13 +21,14 @@
 //! not depend on anything B does (B has not started its list yet).
 use crate::chooser::{Chooser, mix};
 use crate::common::*;
+use crate::e2::{ev_float, ev_grad, ev_interval, ev_point};
 use crate::e5::{Op, SharedTapes, gen_ops, work};
 use crate::gen_::{FuncGen, gen_func, gen_func_with};
 use crate::rt::{self, Shared};
 use fidget_core::{
     Context,
     context::Node,
-    eval::{Function, MathFunction},
+    eval::{BulkEvaluator, Function, MathFunction, Tape, TracingEvaluator},
     types::{Grad, Interval},
     var::Var,
     vm::{GenericVmFunction, VmFunction},
@@ -65,7 +66,11 @@ fn gen_scenario(ch: &mut Chooser) -> Scenario {
     // 0: tapes built up front and shared; 1: each thread builds its own tapes
     // from its clone of the shared, never used function; 2: shape-level first
     // use of the shared function (axes only, one output)
-    let kind = ch.choose("e6_kind", 3);
+    // 3: hoarding - each thread holds many live tapes of several functions at
+    // once (some built by the main thread and handed over), evaluates them in
+    // a drawn order and drops them in another: what pools, arenas and
+    // free-lists of storage see
+    let kind = ch.choose("e6_kind", 4);
     let max_ops = *ch.pick("fn_size", &[4usize, 8, 16]);
     let fg = if kind == 2 {
         // shape level: the axes plus up to three bound variables
@@ -171,6 +176,114 @@ fn shape_work<F: Function + MathFunction + Clone>(
     out
 }
 
+pub enum AnyTape<F: Function> {
+    P(<F::PointEval as TracingEvaluator>::Tape),
+    I(<F::IntervalEval as TracingEvaluator>::Tape),
+    Fl(<F::FloatSliceEval as BulkEvaluator>::Tape),
+    G(<F::GradSliceEval as BulkEvaluator>::Tape),
+}
+
+fn any_tape<F: Function>(f: &F, k: usize) -> AnyTape<F> {
+    match k % 4 {
+        0 => AnyTape::P(f.point_tape(Default::default())),
+        1 => AnyTape::I(f.interval_tape(Default::default())),
+        2 => AnyTape::Fl(f.float_slice_tape(Default::default())),
+        _ => AnyTape::G(f.grad_slice_tape(Default::default())),
+    }
+}
+
+/// A permutation of 0..n from a seed
+fn permutation(n: usize, seed: u64) -> Vec<usize> {
+    let mut v: Vec<usize> = (0..n).collect();
+    let mut r = crate::chooser::Rng::new(seed);
+    for i in (1..n).rev() {
+        v.swap(i, (r.next() % (i as u64 + 1)) as usize);
+    }
+    v
+}
+
+/// The hoarding workload of one thread: `gift` tapes came from the main
+/// thread; `n` more are built here from the function and two of its
+/// simplifications; all are evaluated (order from `seed`) and then dropped or
+/// recycled (another order)
+fn hoard_work<F: Function + Clone>(
+    f: &F,
+    gift: Vec<AnyTape<F>>,
+    n: usize,
+    seed: u64,
+) -> Vec<u64> {
+    let nvars = f.vars().len();
+    let bx = |k: usize| -> Vec<Interval> {
+        (0..nvars)
+            .map(|i| {
+                let a = -1.0 + 0.5 * ((i + k) % 5) as f32;
+                Interval::new(a, a + 0.75)
+            })
+            .collect()
+    };
+    // the function and up to two simplifications of it: tapes with unlike code
+    let mut fns = vec![f.clone()];
+    {
+        let it = f.interval_tape(Default::default());
+        let mut ie = F::new_interval_eval();
+        for k in [1usize, 3] {
+            if let (_, Some(tr)) = ev_interval::<F>(&mut ie, &it, &bx(k)) {
+                if let Ok(c) = f.simplify(&tr, Default::default(), &mut Default::default()) {
+                    fns.push(c);
+                }
+            }
+        }
+    }
+    let mut tapes: Vec<Option<AnyTape<F>>> = gift.into_iter().map(Some).collect();
+    for k in 0..n {
+        tapes.push(Some(any_tape(&fns[k % fns.len()], k + seed as usize)));
+    }
+    let mut pe = F::new_point_eval();
+    let mut ie = F::new_interval_eval();
+    let mut fe = F::new_float_slice_eval();
+    let mut ge = F::new_grad_slice_eval();
+    let mut out = vec![0u64; tapes.len()];
+    for k in permutation(tapes.len(), seed) {
+        let pt: Vec<f32> = (0..nvars).map(|i| 0.25 * ((i + k) % 7) as f32 - 0.5).collect();
+        out[k] = match tapes[k].as_ref().unwrap() {
+            AnyTape::P(t) => ev_point::<F>(&mut pe, t, &pt).0.digest(),
+            AnyTape::I(t) => ev_interval::<F>(&mut ie, t, &bx(k)).0.digest(),
+            AnyTape::Fl(t) => {
+                let cols: Vec<Vec<f32>> =
+                    pt.iter().map(|v| vec![*v, *v + 0.5, -*v]).collect();
+                ev_float::<F>(&mut fe, t, &cols).digest()
+            }
+            AnyTape::G(t) => {
+                let cols: Vec<Vec<Grad>> = pt
+                    .iter()
+                    .enumerate()
+                    .map(|(i, v)| {
+                        let mut d = [0.0; 3];
+                        d[i % 3] = 1.0;
+                        vec![Grad::new(*v, d[0], d[1], d[2])]
+                    })
+                    .collect();
+                ev_grad::<F>(&mut ge, t, &cols).digest()
+            }
+        };
+    }
+    let order = match seed % 3 {
+        0 => (0..tapes.len()).collect::<Vec<_>>(),
+        1 => (0..tapes.len()).rev().collect(),
+        _ => permutation(tapes.len(), seed ^ 0x5a5a),
+    };
+    for (j, k) in order.into_iter().enumerate() {
+        match tapes[k].take().unwrap() {
+            AnyTape::P(t) if j % 2 == 0 => drop(t.recycle()),
+            AnyTape::I(t) if j % 2 == 0 => drop(t.recycle()),
+            AnyTape::Fl(t) if j % 2 == 0 => drop(t.recycle()),
+            AnyTape::G(t) if j % 2 == 0 => drop(t.recycle()),
+            other => drop(other),
+        }
+    }
+    out
+}
+
 fn tapes_of<F: Function + Clone>(f: &F) -> SharedTapes<F> {
     SharedTapes::<F> {
         p: f.point_tape(Default::default()),
@@ -188,8 +301,10 @@ fn thread_work<F: Function + MathFunction + Clone>(
     vars: &[Var],
     sh: Option<&SharedTapes<F>>,
     ops: &[Op],
+    hoard: (Vec<AnyTape<F>>, usize, u64),
 ) -> Vec<u64> {
     match kind {
+        3 => hoard_work::<F>(f, hoard.0, hoard.1, hoard.2),
         0 => work::<F>(sh.unwrap(), ops),
         1 => {
             let sh = tapes_of(f);
@@ -205,6 +320,7 @@ fn child_go<F: Function + MathFunction + Clone + Send + Sync + 'static>(
 ) -> i32
 where
     SharedTapes<F>: Send + Sync,
+    AnyTape<F>: Send,
 {
     let build = || -> Option<(F, Vec<Var>)> {
         let mut ctx = Context::new();
@@ -257,12 +373,31 @@ where
         }
     }
     let kind = sc.kind;
+    // hoarding parameters per thread: tapes handed over by the main thread,
+    // tapes built by the thread itself, order seed
+    let hoard_par: [(usize, usize, u64); 2] = [0, 1].map(|_| {
+        (
+            ch.choose("e6_gift", 7) as usize,
+            6 + ch.choose("e6_hoard", 23) as usize,
+            ch.choose("e6_hoard_seed", 1 << 20) as u64,
+        )
+    });
+    let gifts = |f: &F, t: usize| -> Vec<AnyTape<F>> {
+        (0..hoard_par[t].0).map(|k| any_tape(f, k + t)).collect()
+    };
     let solo = rt::catch(|| {
         let sh_ref = if kind == 0 { Some(tapes_of(&f_ref)) } else { None };
-        [
-            thread_work::<F>(kind, &f_ref, &vars_ref, sh_ref.as_ref(), &ops[0]),
-            thread_work::<F>(kind, &f_ref, &vars_ref, sh_ref.as_ref(), &ops[1]),
-        ]
+        [0usize, 1].map(|t| {
+            let g = if kind == 3 { gifts(&f_ref, t) } else { vec![] };
+            thread_work::<F>(
+                kind,
+                &f_ref,
+                &vars_ref,
+                sh_ref.as_ref(),
+                &ops[t],
+                (g, hoard_par[t].1, hoard_par[t].2),
+            )
+        })
     });
     let solo = match solo {
         Ok(s) => s,
@@ -283,6 +418,11 @@ where
     };
     let ready = Arc::new(AtomicBool::new(false));
     let spawn = |which: usize, sig: i32| {
+        let hoard = (
+            if kind == 3 { gifts(&f, which) } else { vec![] },
+            hoard_par[which].1,
+            hoard_par[which].2,
+        );
         let f = f.clone();
         let sh = sh.clone();
         let ops = ops[which].clone();
@@ -303,7 +443,7 @@ where
                     }
                     marker(sig);
                     let _end = EndMarker(sig);
-                    thread_work::<F>(kind, &f, &vars, sh.as_deref(), &ops)
+                    thread_work::<F>(kind, &f, &vars, sh.as_deref(), &ops, hoard)
                 })
             })
             .expect("spawn")
@@ -1259,8 +1399,8 @@ pub fn run(st: &Shared, tier: Tier, rep: &mut RunReport) {
     // stores included
     if deep {
         let acc = (|| -> Result<Option<(Vec<Access>, Vec<Access>)>, String> {
-            let Some(a) = shared_accesses(seed, false, 150_000)? else { return Ok(None) };
-            let Some(b) = shared_accesses(seed, true, 150_000)? else { return Ok(None) };
+            let Some(a) = shared_accesses(seed, false, 60_000)? else { return Ok(None) };
+            let Some(b) = shared_accesses(seed, true, 60_000)? else { return Ok(None) };
             Ok(Some((a, b)))
         })();
         match acc {
